@@ -86,6 +86,7 @@ var htmlByteTemplates = []string{
 	"x" + bb + " onclick=y", "x'" + bb + " onclick=y", "x\"" + bb + "onclick=y", "x`" + bb + "onclick=y", "'>" + bb + "<script>", bb + "<script>", "<a b=c" + bb + "onclick=d>", "<a b" + bb + "=c onclick=d>",
 	// after an attribute name and white space; at the very start of a quoted context
 	"onclick " + bb + "x", "x' onclick " + bb, "<a onclick " + bb + "x>", "style\t" + bb, "x onclick\x00" + bb + "y", bb + "'onerror=x ", bb + "\"onerror=x ", bb + "`onerror=x ", bb + "' onerror=x ", bb + "x' onerror=y",
+	bb + "onerror=alert(1)", bb + "style=x", bb + "href=javascript:x", "<a" + bb + bb + bb + bb + bb + bb + bb + ">", "<a on" + bb + bb + bb + bb + bb + bb + bb + bb + "=x>",
 	"<title>" + bb + "</title><b>", "<textarea>" + bb + bb + bb + bb + bb + bb + bb + bb + bb + "</textarea>", "<a title=x" + bb + "/onclick=1>", "<script>" + bb + "</script>", "<a href=" + bb + "javascript:x>",
 }
 
